@@ -34,6 +34,22 @@ CLAIMED = {
         'possibly-None level. Does not decide that assignments form a '
         'root-to-leaf path nor totality beyond the None-key rule.',
         'DESIGN.md section 5, C01'),
+    'C04': (
+        'information-flow (order / value taint) abstract interpretation '
+        'over the CFG with function summaries; seed provenance; merge-'
+        'order provenance; def-use closure of the worker count',
+        'Decides that no hash-order, schedule-order or directory-listing-'
+        'order dependent value reaches a persistent write or the result '
+        'of a stage API function, within the stated abstraction (nesting '
+        'one level, flows cut at files, constant-key dicts and returned '
+        'tuples field-sensitive), with each excepted source listed and '
+        'justified; that every RNG is seeded from configuration or from a '
+        'draw on the parent generator made in dispatch order before the '
+        'worker starts; that per-worker files are merged in program or '
+        'sorted-key order; and that the worker count influences only the '
+        'chunk size and the pool-occupancy test. Floating-point summation '
+        'order and third-party determinism are assumed.',
+        'DESIGN.md section 5, C04'),
     'C05': (
         'dispatch folding by conditional constant propagation, value '
         'identity on symbolic terms (cursor rule), sign analysis over '
